@@ -1,5 +1,9 @@
 // C33: the metrics store reports what was recorded.
 //
+//	Part 0  (E3 vsched, recorder.go): the dynsampler metrics recorder under two workers and a reader.
+//	Part 0b (E1 seqx, reload.go): histories of {decide, reload, ack} on the real SamplerFactory + real dynsampler-go
+//	        instances + real MultiMetrics: the counters the recorders feed stay the sum of what was counted, and never
+//	        decrease, across configuration reloads (ClearDynsamplers + lazy re-creation by each worker).
 //	Part 1 (E1 seqx): every sequential history ≤ depth over {register, write ops, get} per metric kind on the
 //	        real MultiMetrics against a plain sequential store.
 //	Part 2 (E3 vsched): every 3-thread program with (2,2,1) ops from the kind's alphabet, every schedule up
@@ -156,6 +160,7 @@ func main() {
 	_, _, isShard := ev.ShardInfo()
 	if !isShard {
 		recorderPart(r, bound) // Part 0: the dynsampler metrics recorder on the real store (recorder.go)
+		reloadPart(r)          // Part 0b: recorders across configuration reloads, through the real SamplerFactory (reload.go)
 		// Part 1: sequential histories
 		depth := ev.Pick(r, 7, 9)
 		for _, k := range kinds {
@@ -273,7 +278,7 @@ func main() {
 	})
 	r.Set("preemption_bound_completed", bound)
 	r.Set("traces_validated_against_impl", r.Count("executions")+r.Count("transitions"))
-	r.Set("bounds", "sequential: depth 7/9 per kind over {register, two writes, get}; concurrent: all 3-thread programs with (2,2,1) ops per kind (thread-symmetric duplicates and write-free programs pruned), preemption bound 2/3, final Get appended")
+	r.Set("bounds", "reload part: see reload_bounds; sequential: depth 7/9 per kind over {register, two writes, get}; concurrent: all 3-thread programs with (2,2,1) ops per kind (thread-symmetric duplicates and write-free programs pruned), preemption bound 2/3, final Get appended")
 	r.Assume("scheduling points at every sync.Map and atomic operation of package metrics (import rewrite); memory-model effects weaker than sequential consistency of those operations are outside")
 	r.Assume("every execution runs the real MultiMetrics; there is no separate model to conform, so traces_validated_against_impl counts executions on the implementation")
 	r.Finish()
